@@ -96,22 +96,18 @@ func verifHandlerSmall(ctx context.Context, conn Connection) error {
 	return nil
 }
 
-// the same plus a panic choice
+// consume everything or panic
 func verifHandlerSmallPanic(ctx context.Context, conn Connection) error {
 	n := atomic.AddInt32(&verifK.inHandler, 1)
 	verifAssert(n == 1, "C06/two-handler-invocations-at-once")
 	atomic.AddInt32(&verifK.handlerRuns, 1)
-	switch verifPick("handler.choice", 0, 2) {
-	case 0:
-		l := conn.Reader().Len()
-		conn.Reader().Skip(l)
-	case 1:
-		conn.Close()
-	case 2:
+	if verifNondetBool("handler.panic") {
 		atomic.AddInt32(&verifK.inHandler, -1)
 		verifPanicOK()
 		panic("handler panic")
 	}
+	l := conn.Reader().Len()
+	conn.Reader().Skip(l)
 	atomic.AddInt32(&verifK.inHandler, -1)
 	return nil
 }
@@ -121,17 +117,17 @@ func verifHandlerSmallPanic(ctx context.Context, conn Connection) error {
 // hang-up goroutine, the handler task(s) spawned through runner.RunTask, one or two user
 // Close calls. Configurations (quick 0-2, thorough 3-4):
 //  0: OnRequest, handler {consume all, Close}, 1 closer
-//  1: OnRequest, handler {consume all, Close, panic}, 1 closer
+//  1: OnRequest, handler {consume all, panic}, 1 closer
 //  2: no OnRequest, 2 closers
 //  3: OnRequest, handler {consume all, consume some, Close}, 2 closers + IsActive observer
 //  4: OnRequest, handler {consume all, consume some, Close, panic}, 2 closers
 //
 //verif:po
-//verif:bounds 1 delivery (size symbolic >= 1) + peer hang-up, 1-2 concurrent user Close, <= 3 task instances, state revisits <= 3; buffers summarised on length; poller slot recycling stubbed (C10)
+//verif:bounds 1 delivery (size symbolic in [1,4]) + peer hang-up, 1-2 concurrent user Close, <= 3 task instances, state revisits <= 3; buffers summarised on length; poller slot recycling stubbed (C10)
 //verif:param 0 2
 //verif:loop 40
 //verif:poloop 3
-//verif:potimeout 300
+//verif:potimeout 600
 //verif:also C19
 func verifHarness_C05_teardown(cfg int) { verifTeardown(cfg) }
 
@@ -171,7 +167,7 @@ func verifTeardown(cfg int) {
 		if op.do() {
 			n := verifNondetInt("delivery")
 			verifAssume(n >= 1)
-			verifAssume(n <= 1<<20)
+			verifAssume(n <= 4)
 			op.Inputs(vs)
 			op.InputAck(n)
 			p.appendHup(op)
